@@ -108,6 +108,27 @@ func (e Ent) payload() int {
 
 func (e Ent) fragmented() bool { return e.payload() > wal.MaxRecordSize }
 
+// carve renders key and value as adjacent sub-slices of one buffer, followed by
+// 16 spare bytes: len(key) < cap(key), so a callee that appends to the key
+// slice writes into the value. nil-ness is preserved.
+func carve(e Ent) (k, v []byte) {
+	kb := e.K.Bytes()
+	var vb []byte
+	if e.T != wal.OpTypeDelete {
+		vb = e.V.Bytes()
+	}
+	arena := make([]byte, len(kb)+len(vb)+16)
+	copy(arena, kb)
+	copy(arena[len(kb):], vb)
+	if kb != nil {
+		k = arena[:len(kb)]
+	}
+	if vb != nil {
+		v = arena[len(kb) : len(kb)+len(vb)]
+	}
+	return k, v
+}
+
 // Step is one step of a case.
 type Step struct {
 	Op    string `json:"op"` // append | batch | sync | rotate | reopen | getfrom | badtype
@@ -449,12 +470,20 @@ func runCase(c *Case) (mm *Mismatch) {
 		switch s.Op {
 		case "append", "badtype":
 			x := mkExp(*s.E, i, false)
-			// the caller's slices are handed over as they are (nil stays nil)
-			var v []byte
-			if s.E.T != wal.OpTypeDelete {
-				v = s.E.V.Bytes()
+			// the caller's slices are handed over as they are (nil stays nil). Like a
+			// real caller that carves key and value out of one request buffer, odd
+			// steps pass sub-slices of ONE arena (the key's capacity extends over the
+			// value); the expected entry x is a private rendering made before the call.
+			var k, v []byte
+			if i%2 == 1 {
+				k, v = carve(*s.E)
+			} else {
+				k = s.E.K.Bytes()
+				if s.E.T != wal.OpTypeDelete {
+					v = s.E.V.Bytes()
+				}
 			}
-			seq, err := r.w.Append(s.E.T, s.E.K.Bytes(), v)
+			seq, err := r.w.Append(s.E.T, k, v)
 			if err != nil {
 				// an append that reports an error is not part of the expected list,
 				// and must leave nothing behind in any later replay
@@ -472,9 +501,14 @@ func runCase(c *Case) (mm *Mismatch) {
 			for _, e := range s.B {
 				x := mkExp(e, i, true)
 				xs = append(xs, x)
-				we := &wal.Entry{Type: e.T, Key: e.K.Bytes()}
-				if e.T != wal.OpTypeDelete {
-					we.Value = e.V.Bytes()
+				we := &wal.Entry{Type: e.T}
+				if i%2 == 1 {
+					we.Key, we.Value = carve(e)
+				} else {
+					we.Key = e.K.Bytes()
+					if e.T != wal.OpTypeDelete {
+						we.Value = e.V.Bytes()
+					}
 				}
 				ents = append(ents, we)
 			}
